@@ -223,6 +223,7 @@ type Op struct {
 	Inc   *IncSpec    `json:"inc,omitempty"`
 	Sl    []SlicePart `json:"sl,omitempty"`
 	U32   uint32      `json:"u32,omitempty"`
+	N     int         `json:"n,omitempty"` // shiftexp: HowMany
 	Patch *PatchSpec  `json:"patch,omitempty"`
 }
 
